@@ -11,10 +11,12 @@ class CaseResult:
     def __init__(self, name, lines):
         self.name, self.lines, self.impl, self.model, self.abort, self.diff = name, lines, [], [], None, None
 
+ENV_EXTRA = {}     # set by a property that needs other sanitizer options for one run (e.g. no quarantine, so that freed addresses are reused)
+
 def _run_chunk(exe, cases, timeout):
     """run cases[...] in one process; returns (#cases fully done, outputs per case, abort-info)"""
     text = '\n'.join('\n'.join(c.lines) for c in cases) + '\n'
-    env = dict(os.environ); env.update(common.ASAN_ENV)
+    env = dict(os.environ); env.update(common.ASAN_ENV); env.update(ENV_EXTRA)
     try:
         p = subprocess.run([exe], input=text, capture_output=True, text=True, timeout=timeout, env=env, errors='replace')
         rc, out, err = p.returncode, p.stdout, p.stderr
